@@ -379,11 +379,43 @@ def _traced_dumps(obj, reducers=None, protocol=None):
 _installed = False
 
 
+# ---------------------------------------------------------------------- what the manager thread really does, in order
+# (compared after each run with the operation lists the translator reads off the source: tr/units.py gen_ledger)
+OPLOG = []
+
+
+def _log_calls(cls, name, token, key):
+    orig = getattr(cls, name)
+
+    def wrapped(self, *a, **kw):
+        OPLOG.append((key(self), token(self, a, kw) if callable(token) else token))
+        return orig(self, *a, **kw)
+    wrapped.__name__ = name
+    setattr(cls, name, wrapped)
+
+
+def _install_oplog():
+    M = pe._ExecutorManagerThread
+    fl = lambda self: id(self.executor_flags)  # noqa: E731
+    _log_calls(M, "terminate_broken", "enter:terminate_broken", fl)
+    _log_calls(M, "flag_executor_shutting_down", lambda self, a, k: "enter:flag_executor_shutting_down:%d" % bool(self.executor_flags.kill_workers), fl)
+    _log_calls(M, "join_executor_internals", "enter:join_executor_internals", fl)
+    _log_calls(M, "kill_workers", "KillWorkers", fl)
+    _log_calls(M, "shutdown_workers", "ShutdownWorkers", fl)
+    _log_calls(pe._ExecutorFlags, "flag_as_broken", "FlagBroken", id)
+    _log_calls(pe._ExecutorFlags, "flag_as_shutting_down", lambda self, a, k: "FlagShutdown" if not a and not k else "user:shutdown", id)
+    _log_calls(lq.Queue, "close", "QClose", id)
+    _log_calls(lq.Queue, "join_thread", "QJoinThread", id)
+    _log_calls(lq.SimpleQueue, "close", "QClose", id)
+    _log_calls(pe._ThreadWakeup, "close", "WakeupClose", id)
+
+
 def install():
     global _installed
     if _installed:
         return
     _installed = True
+    _install_oplog()
     # synchronize: the kernel object and the tracker
     lsync._SemLock = K.SimSemLock
     lsync.sem_unlink = lambda name: None
@@ -422,6 +454,7 @@ def new_kernel(chooser, max_steps=4000, trace_ops=False):
     gc.disable()
     kern = K.Kernel(chooser, max_steps=max_steps, trace_ops=trace_ops)
     KER = kern
+    del OPLOG[:]
     K.SimSemLock.kernel = kern
     K.SimConnection.kernel = kern
     K.SimSemLock.registry.clear()
